@@ -837,6 +837,8 @@ class ClientSession:
                         resp.release()
 
                         try:
+                            # bytes that are not UTF-8 arrive surrogate-escaped
+                            r_url.encode("utf-8")
                             parsed_redirect_url = URL(
                                 r_url, encoded=not self._requote_redirect_url
                             )
